@@ -250,6 +250,10 @@ def parse_into_datetime(
                 # timezone-naive; assume UTC (as format_datetime() does), so
                 # that the value compares equal to itself after a round trip
                 ts = pytz.utc.localize(ts)
+            elif ts.utcoffset().microseconds:
+                # the UTC offset has a fraction of a second: truncating the
+                # local fields below would not truncate the instant
+                ts = ts.astimezone(pytz.utc)
         else:
             # Add a time component
             ts = dt.datetime.combine(value, dt.time(0, 0, tzinfo=pytz.utc))
